@@ -717,6 +717,31 @@ func init() {
 	I["runtime.Gosched"] = func(ex *Exec, th *Thread, fn *ssa.Function, a []Value) (Value, bool) { return nil, false }
 	I["runtime.KeepAlive"] = I["runtime.Gosched"]
 	I["(*strings.Builder).copyCheck"] = I["runtime.Gosched"] // self-pointer bookkeeping through uintptr tricks; copying a Builder is not modelled
+	// (*strings.Builder).String: unsafe.String over the buffer; here the buffer's (concrete) bytes, else an opaque string
+	I["(*strings.Builder).String"] = func(ex *Exec, th *Thread, fn *ssa.Function, a []Value) (Value, bool) {
+		p, ok := a[0].(Ptr)
+		if !ok || p.slot == nil {
+			return strV{opaque: true}, false
+		}
+		sv, ok := (*p.slot).(structV)
+		if !ok || len(sv) < 2 {
+			return strV{opaque: true}, false
+		}
+		buf, ok := sv[1].(sliceV)
+		if !ok || buf.abs != nil {
+			return strV{opaque: true}, false
+		}
+		out := make([]byte, 0, len(buf.arr))
+		for _, e := range buf.arr {
+			t, ok := e.(*Term)
+			if !ok || !t.IsConst() {
+				return strV{opaque: true}, false
+			}
+			out = append(out, byte(t.c))
+		}
+		return strV{s: string(out)}, false
+	}
+	_ = 0
 	I["runtime.SetFinalizer"] = I["runtime.Gosched"]
 	I["internal/race.Enable"] = I["runtime.Gosched"]
 	I["internal/race.Disable"] = I["runtime.Gosched"]
